@@ -55,12 +55,12 @@ Qed.
 
 Lemma tobs_eqb_eq a b : tobs_eqb a b = true <-> a = b.
 Proof.
-  destruct a as [p1 t1 b1 k1 n1 s1 x1 y1 z1], b as [p2 t2 b2 k2 n2 s2 x2 y2 z2]. unfold tobs_eqb.
-  cbn [to_progress to_top to_bot to_ctl to_ntrans to_cstate to_ntop to_nbot to_nctl].
+  destruct a as [p1 t1 b1 k1 n1 s1 x1 y1 z1 q1], b as [p2 t2 b2 k2 n2 s2 x2 y2 z2 q2]. unfold tobs_eqb.
+  cbn [to_progress to_top to_bot to_ctl to_ntrans to_cstate to_ntop to_nbot to_nctl to_ctlq].
   rewrite !andb_true_iff, Bool.eqb_true_iff, (list_eqb_eq trsp_eqb trsp_eqb_eq), (list_eqb_eq sreq_eqb sreq_eqb_eq),
     (list_eqb_eq crsp_eqb crsp_eqb_eq), !N.eqb_eq, !Nat.eqb_eq.
   split.
-  - intros [[[[[[[[-> ->] ->] ->] ->] ->] ->] ->] ->]. reflexivity.
+  - intros [[[[[[[[[-> ->] ->] ->] ->] ->] ->] ->] ->] ->]. reflexivity.
   - intro H. inversion H. tauto.
 Qed.
 
